@@ -496,6 +496,85 @@ fn read_sweep(cfg: &CfgLine, tables: &Tables, fresh_base: &mut u32) -> Vec<Op> {
     out
 }
 
+/// Time of check = time of use: heads of requests arrive with a (then) valid key, their bodies are
+/// withheld; complete requests in between revoke / rotate the key, close or reopen the database, bind the
+/// key a rejected head carried; then the bodies arrive. Reads and writes, both encodings, per-database and
+/// admin principals.
+fn inflight_scenario(g: &mut Gen, out: &mut Vec<Op>) {
+    let cfg = g.cfg.clone();
+    for round in 0..1 + g.rng.below(3) {
+        let n = *g.rng.pick(&[NAME_A, NAME_B]);
+        let k0 = g.new_key(n);
+        let f = g.fresh();
+        out.push(admin_req(&cfg, "db.connect", Some(n), None, &f));
+        if round == 0 {
+            out.push(Op::Fixture(n.to_string()));
+        }
+        let f = g.fresh();
+        out.push(admin_req(&cfg, "db.set_api_key", Some(n), Some(&k0), &f));
+        let k_other = g.new_key(n);
+        let mut ids = Vec::new();
+        let count = 2 + g.rng.below(5);
+        for j in 0..count {
+            let method = *g.rng.pick(&["doc.get", "doc.add", "doc.update", "doc.count", "info", "collection.list", "db.save_extension", "doc.remove", "nope.method"]);
+            let (token, target) = match g.rng.below(8) {
+                0 => (cfg.admin.clone().unwrap_or_default(), Target::Db { name: n.into(), pct: false }),
+                1 => (cfg.admin.clone().unwrap_or_default(), Target::Root),
+                2 => (k_other.clone(), Target::Db { name: n.into(), pct: false }), // a head that is rejected
+                _ => (k0.clone(), Target::Db { name: n.into(), pct: false }),
+            };
+            let f = g.fresh();
+            let id = format!("q{round}x{j}");
+            let method = if matches!(target, Target::Root) { "db.list" } else { method };
+            out.push(Op::Begin(
+                id.clone(),
+                Req {
+                    verb: "POST".into(),
+                    target,
+                    raw: None,
+                    auth: Some(format!("Bearer {token}").into_bytes()),
+                    ct: Some(if g.rng.chance(1, 2) { Enc::Cbor } else { Enc::Json }),
+                    accept: None,
+                    body: Body::Rpc { method: method.into(), name: None, key: None, fresh: f, pvar: "d".into() },
+                },
+            ));
+            ids.push(id);
+        }
+        // what happens while the bodies are withheld
+        for _ in 0..1 + g.rng.below(2) {
+            let f = g.fresh();
+            let op = match g.rng.below(6) {
+                0 | 1 => admin_req(&cfg, "db.remove_api_key", Some(n), None, &f),
+                2 => admin_req(&cfg, "db.set_api_key", Some(n), Some(&k_other), &f),
+                3 => admin_req(&cfg, "db.close", Some(n), None, &f),
+                4 => {
+                    let nk = g.new_key(n);
+                    admin_req(&cfg, "db.set_api_key", Some(n), Some(&nk), &f)
+                }
+                _ => admin_req(&cfg, "db.list", None, None, &f),
+            };
+            out.push(op);
+        }
+        // a fresh request with the old key, then the withheld bodies in a shuffled order
+        let f = g.fresh();
+        out.push(Op::Req(Req {
+            verb: "POST".into(),
+            target: Target::Db { name: n.into(), pct: false },
+            raw: None,
+            auth: Some(format!("Bearer {k0}").into_bytes()),
+            ct: Some(Enc::Cbor),
+            accept: None,
+            body: Body::Rpc { method: "doc.get".into(), name: None, key: None, fresh: f, pvar: "d".into() },
+        }));
+        g.rng.shuffle(&mut ids);
+        for id in ids {
+            out.push(Op::Finish(id));
+        }
+        let f = g.fresh();
+        out.push(admin_req(&cfg, "db.connect", Some(n), None, &f));
+    }
+}
+
 /// Key equality must depend on the WHOLE key. `master` is a long random secret; for every power-of-two
 /// length N the tenant keys `master[..N]:qa` / `master[..N]:zb` (and, in a long-admin case, the admin key
 /// `master:admin`) share their first N bytes. Bound to different databases, rotated among each other, and
@@ -584,6 +663,9 @@ fn gen_case(rng: &mut Rng, tables: &Tables, thorough: bool) -> Vec<String> {
     if g.cfg.admin.is_some() && g.rng.chance(1, 2) {
         fault_scenarios(&mut g, &mut ops);
     }
+    if g.cfg.admin.is_some() && g.rng.chance(1, 2) {
+        inflight_scenario(&mut g, &mut ops);
+    }
     if g.cfg.admin.is_some() && (long_admin || g.rng.chance(1, 3)) {
         for k in key_family_scenario(&mut g, &master, &mut ops) {
             g.keys.insert(k);
@@ -653,6 +735,7 @@ pub fn run_case(lines: &[String], driver: Option<&std::path::Path>, tables: &Tab
     let mut orc = oracle::Oracle::new(tables.clone());
     let mut prev: Option<(Req, wire::ImplResp, String)> = None;
     let mut wire401_done = [false; 2];
+    let mut begun: BTreeMap<String, (Req, Option<bool>)> = BTreeMap::new();
     for (i, line) in lines.iter().enumerate() {
         let Some(op) = Op::parse(line) else {
             res.disagreements.push(("unparsable op line".into(), i, String::new(), line.clone()));
@@ -700,6 +783,7 @@ pub fn run_case(lines: &[String], driver: Option<&std::path::Path>, tables: &Tab
             Op::Restart | Op::Crash => {
                 let Some(w) = world.as_mut() else { continue };
                 let crash = matches!(op, Op::Crash);
+                begun.clear();
                 let dbs = if crash { w.crash() } else { w.restart() };
                 if crash {
                     orc.on_crash();
@@ -715,10 +799,38 @@ pub fn run_case(lines: &[String], driver: Option<&std::path::Path>, tables: &Tab
                 }
                 res.nontrivial.push(format!("{}|restart|{imp}", orc.fingerprint()));
             }
-            Op::Req(r) => {
+            Op::Begin(id, r) => {
+                let Some(w) = world.as_mut() else { continue };
+                let allowed_at_begin = orc.allowed(r, w);
+                w.begin(id, r);
+                begun.insert(id.clone(), (r.clone(), allowed_at_begin));
+                res.hit("op:begin");
+                if let Some(m) = model.as_mut() {
+                    let out = m.ask(line);
+                    if out != "ok" {
+                        res.disagreements.push(("begin rejected by the model".into(), i, out, "ok".into()));
+                    }
+                }
+            }
+            Op::Req(_) | Op::Finish(_) => {
                 let Some(w) = world.as_mut() else { continue };
                 let t0 = std::time::Instant::now();
-                let resp = w.exec(r);
+                // a complete request, or the delivery of a withheld body: either way the answer is judged
+                // against the state of the service NOW
+                let mut head_rejected = false;
+                let (r_owned, resp) = match &op {
+                    Op::Req(r) => (r.clone(), w.exec(r)),
+                    Op::Finish(id) => {
+                        let Some((r, allowed_at_begin)) = begun.remove(id) else { continue };
+                        head_rejected = allowed_at_begin == Some(false);
+                        let Some(resp) = w.finish(id) else { continue };
+                        res.hit("op:finish");
+                        res.hit(&format!("finish:status:{}", resp.status));
+                        (r, resp)
+                    }
+                    _ => unreachable!(),
+                };
+                let r = &r_owned;
                 let dt = t0.elapsed().as_nanos();
                 if resp.status == 401
                     && r.auth.is_some()
@@ -741,7 +853,10 @@ pub fn run_case(lines: &[String], driver: Option<&std::path::Path>, tables: &Tab
                 let fp = orc.fingerprint();
                 // --- oracle ---
                 let before = res.oracle_failures.len();
-                for (key, what, expected, observed) in orc.check(r, &resp, w) {
+                // a withheld body: the answer must be the one a FRESH request gets now (revoked in between = the
+                // uniform 401, nothing touched) - unless the head itself had been rejected, which is final
+                let verdicts = if head_rejected { orc.check_rejected_head(&resp) } else { orc.check(r, &resp, w) };
+                for (key, what, expected, observed) in verdicts {
                     res.oracle_failures.push((key, what, i, expected, observed));
                 }
                 // encoding independence for the CBOR/JSON twin of a cell
